@@ -390,6 +390,8 @@ def run(tier, replay):
             ps = positions(e)
         except render.RenderError:
             continue
+        if tier == "thorough" and e in d2_ids:
+            ps = rng.sample(ps, 10)       # the random deep expressions: ten positions each
         if tier == "quick":
             # quick: every position for the simple expressions (a leaf, one operator over leaves with a leaf of each kind,
             # every built-in signature); twelve positions drawn per remaining binary pair, five per random deep expression
@@ -436,14 +438,23 @@ def run(tier, replay):
         meta[rid] = ("edit:" + kind, text, obs)
     # ---- TLC
     path = os.path.join(d, "types.ndjson")
-    with open(path, "w") as f:
-        for r in recs:
-            f.write(dumps(r) + "\n")
-    res2 = run_tlc("Trace_Types.tla", "Trace_Types.cfg", os.path.join(d, "tlc_tr"), env={"TRACE": path}, timeout=3000)
-    if res2.timed_out or not res2.ok:
-        raise ToolError("TLC failed on Trace_Types:\n%s" % res2.violation)
+    printed = []
+    res2 = None
+    tdist = tgen = 0
+    CH = 40000            # the records are validated in portions: one TLC run per portion
+    for c0 in range(0, len(recs), CH):
+        with open(path, "w") as f:
+            for r in recs[c0:c0 + CH]:
+                f.write(dumps(r) + "\n")
+        res2 = run_tlc("Trace_Types.tla", "Trace_Types.cfg", os.path.join(d, "tlc_tr"), env={"TRACE": path}, timeout=3000)
+        if res2.timed_out or not res2.ok:
+            raise ToolError("TLC failed on Trace_Types (%s):\n%s" % ("timed out" if res2.timed_out else "error", res2.violation))
+        printed += res2.printed
+        tdist += res2.distinct
+        tgen += res2.generated
+    res2.distinct, res2.generated = tdist, tgen
     counts = {"AGREE": 0, "MISMATCH": 0, "NOCLAIM": 0}
-    for ln in res2.printed:
+    for ln in printed:
         tag, sid = ln.split(" ")
         counts[tag] = counts.get(tag, 0) + 1
         if tag == "MISMATCH":
